@@ -170,7 +170,9 @@ let f id vs =
         let users = List.map (fun u -> match as_list u with [a; b; c] -> parse_user a b c | _ -> failwith "user") (as_list us) in
         let oids = match as_list oids with
           | [I "0"] -> None
-          | [I "1"; l] -> Some (List.map as_cbytes (as_list l))
+          (* for a large set the driver sends the members that are stored object ids (or one member
+             that is not stored) followed by the real size: Props/C13.v rswu_object_ids_reduction *)
+          | I "1" :: l :: _ -> Some (List.map as_cbytes (as_list l))
           | _ -> failwith "oids" in
         let fl = { sf_otype = as_cbytes ot; sf_rel = as_cbytes r; sf_users = users; sf_oids = oids; sf_conds = parse_conds c } in
         let spec = rswu_spec s fl and mm = memory_rswu s fl and sm = sql_rswu s fl in
